@@ -88,11 +88,21 @@ def mem_bytes(src):
     raise KeyError(src)
 
 
+def rust_int(src):
+    """value of a Rust integer literal: optional type suffix, underscores, 0x / 0o / 0b prefixes"""
+    t = src
+    for suf in ('usize', 'u64', 'u32', 'u16', 'u8', 'isize', 'i64', 'i32'):
+        if t.endswith(suf):
+            t = t[:-len(suf)]
+            break
+    return int(t.replace('_', ''), 0)
+
+
 def expectations(fx):
     a = dict(fx.attrs)
     e = {}
-    e['limit'] = int(a['limit']) if 'limit' in a else None
-    e['ttl'] = int(a['ttl']) if 'ttl' in a else None
+    e['limit'] = rust_int(a['limit']) if 'limit' in a else None
+    e['ttl'] = rust_int(a['ttl']) if 'ttl' in a else None
     e['max_memory'] = mem_bytes(a['max_memory']) if 'max_memory' in a else None
     e['policy'] = POLICY_VARIANT[a['policy'].strip('"')] if 'policy' in a else 'FIFO'
     e['frequency_weight'] = dict(FW_VALUES)[a['frequency_weight']] if 'frequency_weight' in a else None
@@ -187,6 +197,10 @@ def families(macro):
     for i, lim in enumerate(['1', '3', '1000']):
         for pol in POLICIES:
             out.append(Fx(macro, A(('limit', lim), ('policy', '"%s"' % pol)), ['i32'], None, 'i32', 'L'))
+    # literal spellings: separators, a base prefix, a type suffix
+    out.append(Fx(macro, A(('limit', '1_000'), ('policy', '"lru"')), ['i32'], None, 'i32', 'L'))
+    out.append(Fx(macro, A(('limit', '0x10')), ['i32'], None, 'i32', 'L'))
+    out.append(Fx(macro, A(('limit', '7usize'), ('ttl', '60u64')), ['i32'], None, 'i32', 'L'))
     for ttl in ['1', '60', '0']:
         for pol in (POLICIES if ttl != '0' else POLICIES[:2]):
             out.append(Fx(macro, A(('ttl', ttl), ('policy', '"%s"' % pol)), ['i32'], None, 'String', 'T'))
